@@ -1,3 +1,3 @@
 #!/bin/sh
 # replays this counterexample against the real build
-cd /tmp/seedonly_C05d_1056 && VERIF_SCRIPT=/verif/replays/C05/VHarnessRaceMeltMelt_2137047b_0/script.json VERIF_RAW_SALT=0 GOFLAGS=-mod=mod GOPROXY=off go test -vet=off -count=1 -overlay /verif/replays/C05/VHarnessRaceMeltMelt_2137047b_0/overlay.json -run ^TestVerifReplay_VHarnessRaceMeltMelt$ -v ./mint
+cd /tmp/seedrepo_C05d && VERIF_SCRIPT=/verif/replays/C05/VHarnessRaceMeltMelt_2137047b_0/script.json VERIF_RAW_SALT=0 GOFLAGS=-mod=mod GOPROXY=off go test -vet=off -count=1 -overlay /verif/replays/C05/VHarnessRaceMeltMelt_2137047b_0/overlay.json -run ^TestVerifReplay_VHarnessRaceMeltMelt$ -v ./mint
